@@ -7,10 +7,13 @@
    AgeBuckets > 0, BufCap > 0, every creation time, and every sequence of Observe / Advance / Write
    with non-negative clock advances, without any size bound.
 
+   The concurrent clause is proved at the end of this file over the step machine of
+   Model/SummaryConc.v (one step per schedule point of the instrumented code) for ALL schedules.
    Not proved here (tested by the harness, see checks/C06.json): the epsilon-rank guarantee of the
-   value the external estimator (beorn7/perks) returns, and the concurrent clause on real goroutines. *)
+   value the external estimator (beorn7/perks) returns. *)
 From Coq Require Import ZArith List Bool Sorted Permutation.
 From Verif Require Import Base.F64 Base.Str Model.SummaryWindow Proofs.C06_proofs.
+From Verif Require Import Base.Conc Model.SummaryConc Proofs.C06_conc.
 From Verif Require Gen.Gen_Consts Proofs.Gen_tie.
 Import ListNotations.
 Open Scope Z_scope.
@@ -100,7 +103,7 @@ Theorem rank_check_member : forall w q eps x, is_nan x = false ->
   rank_check w q eps x = true -> exists y, In y w /\ feq y x = true.
 Proof. exact C06_proofs.rank_check_member_lemma. Qed.
 
-(* lock order bufMtx -> mtx, two-lock abstraction: whenever some thread is not idle, some thread can step *)
+(* lock order bufMtx -> mtx on a two-lock abstraction (superseded by conc_no_deadlock below, kept as a sanity lemma) *)
 Theorem summary_no_deadlock : forall ts,
   existsb (fun t => negb (match t with TIdle => true | _ => false end)) ts = true ->
   existsb (enabled ts) ts = true.
@@ -125,3 +128,87 @@ Theorem summary_defaults_match_source :
   SummaryWindow.def_buf_cap = Verif.Gen.Gen_Consts.def_buf_cap /\
   SummaryWindow.quantile_label = Verif.Gen.Gen_Consts.quantile_label.
 Proof. exact Verif.Proofs.Gen_tie.summary_defaults_match_source_lemma. Qed.
+
+(* ================================================================== *)
+(* The concurrent clause: concurrent Observe and Write calls never lose an observation.
+   Setting: the step machine summ_obj_machine c objs clk of Model/SummaryConc.v (threads run Observe v /
+   Write; one step per Mutex.Lock / Mutex.Unlock of bufMtx and mtx - the critical-section body is executed
+   with the Lock that precedes it - and per start of the goroutine spawned by asyncFlush, which is a thread of
+   its own; swapBufs / flushColdBuf / maybeRotateStreams are those of Model/SummaryWindow.v; the injected
+   clock is an arbitrary oracle clk) under the interleaving semantics of Base/Conc.v.  Every theorem
+   quantifies over ALL configurations with streamDuration > 0, ALL clocks, ALL program lists (any number of
+   threads and calls, any values, NaN included) and ALL schedules; hist cf is the list of finished calls in
+   completion order with logical invocation/response times c_inv / c_res.
+   Vocabulary (Proofs/C06_conc.v):  kobs k: the call k is an Observe;  kwrite k: k returned a collection;
+     vals S: the observation values of the calls S;
+     snapshot_of hs F w S: the Write call w returned out with  w_count out = |P|  and
+       w_sum out = fold_left fadd P +0  for an initial segment P of F that is a permutation of vals S, where S is
+       a duplicate-free list of Observe calls of hs, every member of S returned before w returned, and every
+       Observe of hs that returned before w was invoked is in S;
+     quiescent cf: every thread has finished its program (flusher-pool threads whose goroutine was never
+       spawned do not count) and no spawned flusher is waiting to start. *)
+
+(* (a) There is ONE sequence F - the observation values in the order in which the machine flushed them; the
+   final cnt and sum are its length and its left-to-right float sum - such that every completed Write reports
+   count and float sum of an initial segment of F which is a permutation of the values of a set S of Observe
+   calls containing every Observe that returned before the Write started and only Observes that returned
+   before it finished; the sets of successive Writes (completion order) form an increasing chain. *)
+Theorem conc_writes_explained : forall (c : cfg) (objs : list (f64 * f64)) (clk : Z -> Z), 0 < c_d c ->
+  forall (t0 : Z) (progs : list (list sop)) (sched : list Z),
+  let M := summ_obj_machine c objs clk in
+  let cf := run_sched M (init_config M (cinit c t0) progs) sched in
+  exists (F : list f64) (snap : list (call M * list (call M))),
+    cnt (c_st (sh cf)) = Z.of_nat (length F) /\ sum (c_st (sh cf)) = fold_left fadd F pzero /\
+    map fst snap = filter (C06_conc.kwrite c objs clk) (Conc.hist cf) /\
+    Forall (fun e => C06_conc.snapshot_of c objs clk (Conc.hist cf) F (fst e) (snd e)) snap /\
+    (forall i j e1 e2, (i < j)%nat -> nth_error snap i = Some e1 -> nth_error snap j = Some e2 ->
+       incl (snd e1) (snd e2)).
+Proof. exact C06_conc.writes_explained_lemma. Qed.
+
+(* ... in particular the reported count never decreases from one Write to the next (completion order) *)
+Theorem conc_write_counts_monotone : forall (c : cfg) (objs : list (f64 * f64)) (clk : Z -> Z), 0 < c_d c ->
+  forall (t0 : Z) (progs : list (list sop)) (sched : list Z),
+  let M := summ_obj_machine c objs clk in
+  let cf := run_sched M (init_config M (cinit c t0) progs) sched in
+  exists snap : list (call M * list (call M)),
+    map fst snap = filter (C06_conc.kwrite c objs clk) (Conc.hist cf) /\
+    forall i j w1 S1 w2 S2 o1 o2, (i < j)%nat -> nth_error snap i = Some (w1, S1) -> nth_error snap j = Some (w2, S2) ->
+      (c_ret w1 : sret) = ROut o1 -> (c_ret w2 : sret) = ROut o2 -> w_count o1 <= w_count o2.
+Proof. exact C06_conc.write_counts_monotone_lemma. Qed.
+
+(* (b) At quiescence both mutexes are free, the cold buffer is empty, and the flushed sequence F followed by
+   the hot buffer is a permutation of ALL Observe calls of the history: cnt + |hotBuf| observations, none lost,
+   none twice; sum is the float sum of F in the order the machine flushed it. *)
+Theorem conc_quiescent_total : forall (c : cfg) (objs : list (f64 * f64)) (clk : Z -> Z), 0 < c_d c ->
+  forall (t0 : Z) (progs : list (list sop)) (sched : list Z),
+  let M := summ_obj_machine c objs clk in
+  let cf := run_sched M (init_config M (cinit c t0) progs) sched in
+  C06_conc.quiescent c objs clk cf = true ->
+  let st := c_st (sh cf) in
+  c_buf (sh cf) = false /\ c_mtx (sh cf) = false /\ cold st = [] /\
+  exists F, cnt st = Z.of_nat (length F) /\ sum st = fold_left fadd F pzero /\
+            Permutation (F ++ hot st) (C06_conc.vals c objs clk (filter (C06_conc.kobs c objs clk) (Conc.hist cf))).
+Proof. exact C06_conc.quiescent_total_lemma. Qed.
+
+(* (c) No reachable configuration is a deadlock (lock order bufMtx -> mtx; a spawned flusher always runs):
+   for user programs U run together with the pool of 2 * (number of Observe calls) flusher threads
+   (crun / all_progs: an Observe executes at most two `go` statements), whenever the configuration is not
+   quiescent some thread can take a step.  No thread ever panics ("coldBuf is not empty") or exhausts the
+   loop fuel: `crashed` is excluded by the invariant. *)
+Theorem conc_no_deadlock : forall (c : cfg) (objs : list (f64 * f64)) (clk : Z -> Z), 0 < c_d c ->
+  forall (t0 : Z) (U : list (list uop)) (sched : list Z),
+  let cf := crun c objs clk t0 U sched in
+  C06_conc.quiescent c objs clk cf = false ->
+  exists tid, sched_step (summ_obj_machine c objs clk) cf tid <> None.
+Proof. exact C06_conc.no_deadlock_lemma. Qed.
+
+(* a concrete interleaving (BufCap 1): a Write running between two Observes of another thread reports exactly the
+   first one; at the end the machine is quiescent with count 2 *)
+Example conc_example :
+  map (fun k : call (summ_obj_machine exc [] (fun _ => 0)) =>
+         (c_tid k, c_idx k, match (c_ret k : sret) with ROut w => Some (w_count w, to_bits (w_sum w)) | RUnit => None end,
+          c_inv k, c_res k)) (Conc.hist excf)
+  = [(0, 0, None, 0, 4); (2, 0, None, 0, 6); (1, 0, Some (1, to_bits (of_Z 1)), 0, 10); (0, 1, None, 4, 13); (3, 0, None, 0, 14)]
+  /\ map fst (trace excf) = [0; 0; 2; 0; 1; 2; 1; 1; 0; 1; 0; 3; 0; 3]
+  /\ C06_conc.quiescent exc [] (fun _ => 0) excf = true /\ cnt (c_st (sh excf)) = 2.
+Proof. exact C06_conc.conc_example_lemma. Qed.
